@@ -15,6 +15,7 @@ CONSTANTS
   Backlog = 1
   WksCheck = TRUE
   SnlClean = TRUE
+  KeepDead = FALSE
 VIEW View
 INVARIANT OneAddrPerSocket
 INVARIANT NoDoubleAlloc
